@@ -2,6 +2,7 @@ package main
 
 import (
 	"fmt"
+	"strconv"
 	"go/ast"
 	"go/token"
 	"os"
@@ -110,6 +111,12 @@ func (t *buildTr) iexpr(e ast.Expr) (string, *wty) {
 	case *ast.Ident:
 		if t.ints[x.Name] {
 			return "(σ.get " + leanStr(x.Name) + ")", &wty{k: "int"}
+		}
+		// a package-level integer constant
+		if v, ok := t.p.consts[x.Name]; ok && t.env[x.Name] == nil {
+			if _, err := strconv.Atoi(v); err == nil {
+				return "(" + v + " : Int)", &wty{k: "int"}
+			}
 		}
 	case *ast.BasicLit:
 		if x.Kind == token.INT {
